@@ -4,6 +4,8 @@ import json, glob, os, re
 rows = []
 for d in sorted(glob.glob("/verif/seeded/*/")):
     name = os.path.basename(os.path.dirname(d))
+    if not os.path.exists(d + "meta.json"):
+        continue
     m = json.load(open(d + "meta.json"))
     caught = m["caught_by_quick"] + m["also_caught_by"]
     rows.append(f"| {name} | {m['breaks_property']} | {m['needs_to_manifest']} | {' '.join(caught) if caught else ('none (must stay quiet: ' + ' '.join(m.get('must_pass_quick', [])) + ')')} |")
